@@ -30,6 +30,7 @@ def opt_templates():
 
 def gen_cases(rng, n):
     cases = opt_templates() + [(t, p, s) for t, p, s in G.templates(rng)] + G.boundary_programs()
+    cases += G.output_text_cases(rng) + G.bulk_output_cases(n > 1000)
     for _ in range(max(20, n // 3)):
         cases.append(("scripted", S.scripted(rng), G.gen_stdin(rng)))
     for _ in range(max(12, n // 10)):
@@ -90,11 +91,20 @@ def run(prop, tier, seed):
     r2 = run_bin(cases, 2, "c")
     # library level: optimize() result against the L1 model
     st0, st1 = {}, {}
+    # the bulk-output programs (thousands of commands) are compared between the levels of the binary only: the extracted
+    # optimiser model is quadratic in the length of the pre-executed prefix
+    heavy = [tag == "bulk-output" for tag, _, _ in cases]
+    light = [c for c, h in zip(cases, heavy) if not h]
+
+    def spread(res, filler):
+        it = iter(res)
+        return [filler if h else next(it) for h in heavy]
     for lv in (1, 2):
-        ls = ["opt state %d %s" % (lv, G.cps(p)) for _, p, _ in cases]
-        st0[lv] = C.run_impl(ls)
-        st1[lv] = C.run_model(ls)
-    m = {lv: C.run_model(["opt run %d %d %s %s" % (lv, 4000 if quick else 20000, G.cps(p), G.cps(s)) for _, p, s in cases]) for lv in (1, 2)}
+        st0[lv] = C.run_impl(["opt state %d %s" % (lv, G.cps(p)) for _, p, _ in cases])
+        st1[lv] = spread(C.run_model(["opt state %d %s" % (lv, G.cps(p)) for _, p, _ in light]), None)
+        st1[lv] = [a if b is None else b for a, b in zip(st0[lv], st1[lv])]
+    m = {lv: spread(C.run_model(["opt run %d %d %s %s" % (lv, 4000 if quick else 20000, G.cps(p), G.cps(s)) for _, p, s in light]), "END:fuel|o=|e=")
+         for lv in (1, 2)}
     distinct = set()
     propfail, corr = [], []
     for k, (tag, prog, stdin) in enumerate(cases):
